@@ -241,6 +241,8 @@ def run(ctx):
     info = make_info(repo, per_fit, shapes)
     I.call(keep, [('D', scalar(sym('number'), num(1)))], selfv=info)
     n0 = cut_of(info.attrs.get('chi2'), 'chi2', shapes)
+    if n0 is not None:
+        n0 = alg.rebuild(n0, lambda a: Poly.const(0) if a == count_atom(R) else None)         # the value of the count when the result is empty
     ctx.expect(n0 is not None and n0.is_zero(), 'ALG-11', 'empty result', where, 'n_fits == 0 without reading chi2[0]', 'empty result handled as %s' % (alg.show(n0) if n0 is not None else info.attrs.get('chi2')), 'empty')
     ctx.exhaustive = True
 
